@@ -4,6 +4,9 @@
 # quarter of it); evidence and replays go to a scratch directory
 out="$1"; b="${2:-600}"
 bin=/tmp/mlsim_thorough.$$; bin2=/tmp/mlsim_sr_thorough.$$
+# (the binaries in target/ may have been built from a patched /repo by seedtest.sh: build from the current tree first)
+(cd /verif/sim && CARGO_NET_OFFLINE=true cargo build --release --offline -q) || exit 2
+(cd /verif/sim-sr && CARGO_NET_OFFLINE=true cargo build --release --offline -q) || exit 2
 cp /verif/sim/target/release/mlsim $bin || exit 2
 cp /verif/sim/target/release/mlsim-sr $bin2 || exit 2
 for P in C01 C02 C03 C04 C05 C06 C07 C08 C09 C10 C11 C12 C13 C14 C15 C16 C17 C18 C19; do
